@@ -1,0 +1,11 @@
+//! Verification hooks (feature `verif-hooks`, off by default).
+//!
+//! Read-only re-exports and thin wrappers over private items so that the
+//! out-of-tree verification harness can run them on chosen inputs. Nothing in
+//! here is used by the library itself.
+
+/// HPACK: private module re-exported for unit-level differential runs.
+pub mod hpack {
+    pub use crate::hpack::huffman::{decode as huffman_decode, encode as huffman_encode};
+    pub use crate::hpack::{BytesStr, Decoder, DecoderError, Encoder, Header, NeedMore};
+}
